@@ -1,4 +1,4 @@
-"""Observation (suspected defect, NOT fixed, not claimed by the C18 check):
+"""D21 (known finding of C18, NOT fixed; reported by ./check C18 as KNOWN-FINDING):
 a process that fails an event and yields it in the same step - or yields an event that has been failed
 earlier in the same time step and is not yet processed - cannot handle the failure: the callbacks task
 scheduled by Event._trigger runs before the process' `postpone` in Process._wait_interruptible
